@@ -65,6 +65,25 @@ theorem C16_short_payload (ty : Ty) (bytes : List Nat) (h : decBytes ty bytes = 
   rw [h] at h0
   exact h0
 
+/-- **C16, work**: the number of `read_word` calls the decoder makes (`reads`, the same
+recursion as the decoder, a failing read included) is at most `weight ty * (1 + 8 * #bytes)`
+where `weight` depends on the schema only — for every type in which no dynamic array has a
+zero-width element type.  A length prefix of 2^32−1 with nothing behind it costs one failing
+read. -/
+theorem C16_work_bounded (ty : Ty) (hp : PosWidth ty = true) (bytes : List Nat) :
+    reads ty (unpack bytes) ≤ weight ty * (1 + 8 * bytes.length) := by
+  have := reads_le ty hp (unpack bytes)
+  rwa [unpack_length] at this
+
+/-- the guard is necessary: `[[u8,0]]` announcing `n` elements costs `n` steps on 4 bytes
+(the recorded finding `zero-width-elements`) -/
+theorem C16_zero_width_counterexample :
+    PosWidth (.dyn (.arr (.uint 8) 0)) = false ∧
+    (decBytes (.dyn (.arr (.uint 8) 0)) [200, 0, 0, 0]).map vlen = some 200 := by decide +kernel
+
+example : PosWidth (.field "a" 0 (.dyn (.opt (.sint 3))) (.field "s" 1 .str .unit)) = true := by decide
+example : reads (.field "a" 0 (.dyn (.uint 8)) .unit) (unpack [255, 255, 255, 255, 7]) = 3 := by decide
+
 /-! non-vacuity: `[u8]` announcing 2^32-1 elements with one byte of payload is rejected -/
 example : decBytes (.field "a" 0 (.dyn (.uint 8)) .unit) [255, 255, 255, 255, 7] = none := by
   decide
